@@ -32,6 +32,41 @@ LIMITED_ADAPTORS = {'flatten_unordered': 1, 'for_each_concurrent': 1, 'try_for_e
 USER_CALLS = ['core::ops::function::Fn::call', 'core::ops::function::FnMut::call_mut', 'core::ops::function::FnOnce::call_once']
 
 
+def then_send_for_each(core, roots_):
+    """StreamBuilder::then_send written with StreamExt::for_each: the closure given to for_each calls the user's function once with
+    its item, sends the result as an event on every path, and the for_each future — over the builder's own stream — is awaited.
+    Returns (None, '') when the form does not apply"""
+    fam = [g for r_ in roots_ for g in [r_] + core.closures_of(r_)]
+    for h in fam:
+        for bb, t in h.calls('futures_util::stream::stream::StreamExt::for_each'):
+            clos = [core.by_exact(o.stmt['rv']['def']) for o in origins(h, t['args'][1]) if o.kind == 'agg' and o.stmt['rv'].get('ak') == 'closure']
+            clos = [g for g in clos if g is not None and not g.coroutine]
+            if len(clos) != 1:
+                continue
+            g = clos[0]
+            sends = [(b2, t2) for b2, t2 in g.calls('crux_core::command::context::CommandContext::send_event')]
+            users = [(b2, t2) for b2, t2 in g.calls(*USER_CALLS)]
+            if not sends:
+                continue
+            over_own = any(o.kind == 'call' and call_matches(o.term, ['crux_core::command::builder::StreamBuilder::into_stream']) for o in origins(h, t['args'][0]))
+            awaited = any(any(o.kind == 'call' and o.bb == bb for o in origins(h, t2['args'][0])) for b2, t2 in h.calls(POLL))
+            one = len(sends) == 1 and len(users) == 1
+            ev_ok = arg_ok = always = False
+            if one:
+                sb, st = sends[0]
+                ub, ut = users[0]
+                ev_ok = bool(origins(g, st['args'][1])) and all(o.kind == 'call' and o.bb == ub for o in origins(g, st['args'][1]))
+                for o in origins(g, ut['args'][1]):
+                    if o.kind == 'agg' and o.stmt['rv'].get('ak') == 'tuple':
+                        inner = origins(g, o.stmt['rv']['ops'][0])
+                        arg_ok = bool(inner) and all(x.kind == 'arg' and x.n == 2 and not x.suffix for x in inner)
+                always = not any(r in g.reachable([0], removed_blocks=[sb]) for r in g.return_blocks()) and not g.in_cycle(sb)
+            ok = one and ev_ok and arg_ok and always and over_own and awaited
+            return ok, 'for_each over the builder\'s stream, awaited: %s / %s; per item: event is callback(item): %s, %s; sent exactly once on every path: %s' % (
+                over_own, awaited, ev_ok, arg_ok, always)
+    return None, ''
+
+
 def check_builders(rep, core):
     rep.rule('R04.d', 'builder chains contain no adaptor that drops, duplicates, reorders or truncates items', floor=10)
     rep.rule('R04.e', 'then_send emits exactly one event for a request output and one per stream item', floor=2)
@@ -67,6 +102,12 @@ def check_builders(rep, core):
         # the async body of then_send: a coroutine among its closures (also when it lives in an async helper spliced into them)
         fs = [g for r_ in roots_ for g in core.closures_of(r_) if g.coroutine and list(g.calls('crux_core::command::context::CommandContext::send_event'))]
         key = '%s::then_send' % adt
+        if len(fs) != 1 and many:
+            # the per-item form: `stream.for_each(move |out| { ctx.send_event(event(out)); ready(()) }).await`
+            ok_fe, detail_fe = then_send_for_each(core, roots_)
+            if ok_fe is not None:
+                rep.expect('R04.e', ok_fe, key, detail_fe, '%s no longer sends event(output) for every item (%s)' % (key, detail_fe))
+                continue
         if len(fs) != 1:
             rep.missing('R04.e', key)
             continue
